@@ -32,6 +32,7 @@ package file
 //@   ghost fpos int
 //@   ghost ls int
 //@   ghost wasSkip bool = false
+//@   ghost gacc int
 //@   requires readBufferSize >= 1 && w.maxEventSize >= 0
 //@   loop 1 invariant len(readBuf) == readBufferSize && disjoint(accumBuf, readBuf) && !isnil(readBuf) && !isnil(accumBuf)
 //@   loop 1 invariant shouldCheckMax == (w.maxEventSize != 0) && w.maxEventSize >= 0
@@ -39,6 +40,7 @@ package file
 //@   loop 4 invariant !sameblock(job.tail, readBuf) && !sameblock(job.tail, accumBuf) && job.curOffset == lastOffset
 //@   loop 4 invariant shouldCheckMax == (w.maxEventSize != 0) && w.maxEventSize >= 0 && !job.isCompressed && job != nil
 //@   loop 4 invariant 0 <= readTotal && scanned == readTotal && fpos == lastOffset + readTotal && fpos <= len(content)
+//@   loop 4 invariant job.lastEventSeq == gacc
 //@   loop 4 invariant 0 <= ls && ls <= lastOffset + scanned && nochr(content[ls:lastOffset+scanned], '\n')
 //@   loop 4 invariant len(accumBuf) <= lastOffset + scanned - ls
 //@   loop 4 invariant len(accumBuf) == lastOffset + scanned - ls ==> seqeq(accumBuf, content, ls)
@@ -48,6 +50,7 @@ package file
 //@   loop 5 invariant !sameblock(job.tail, readBuf) && !sameblock(job.tail, accumBuf) && job.curOffset == lastOffset
 //@   loop 5 invariant shouldCheckMax == (w.maxEventSize != 0) && w.maxEventSize >= 0 && !job.isCompressed && job != nil
 //@   loop 5 invariant 0 <= readTotal && 0 <= scanned && fpos == lastOffset + readTotal && fpos <= len(content)
+//@   loop 5 invariant job.lastEventSeq == gacc
 //@   loop 5 invariant sameblock(buf, readBuf) && lastOffset + scanned + len(buf) == lastOffset + readTotal && seqeq(buf, content, lastOffset + scanned)
 //@   loop 5 invariant 0 <= ls && ls <= lastOffset + scanned && nochr(content[ls:lastOffset+scanned], '\n')
 //@   loop 5 invariant len(accumBuf) <= lastOffset + scanned - ls
@@ -58,7 +61,8 @@ package file
 //@   assert at "job.shouldSkip.Store(false)" wasSkip || (shouldCheckMax && !w.cutOffEventByLimit && lastOffset + scanned - ls > w.maxEventSize)
 //@   setat "accumBuf = accumBuf[:0]" ls := lastOffset + scanned
 //@   callee chanrecv:jobsChan() (j)
-//@     ghostout content, fpos, ls
+//@     ghostout content, fpos, ls, gacc
+//@     ensures j != nil ==> j.lastEventSeq == gacc
 //@     ensures j != nil ==> !j.isDone && !j.isCompressed && j.mimeType != "application/x-lz4"
 //@     ensures j != nil ==> j.curOffset == fpos && 0 <= ls && ls <= fpos && fpos <= len(content) && nochr(content[ls:fpos], '\n')
 //@     ensures j != nil ==> len(j.tail) <= fpos - ls && (len(j.tail) == fpos - ls ==> seqeq(j.tail, content, ls))
@@ -80,6 +84,7 @@ package file
 //@     requires len(data) < lastOffset + scanned - ls ==> len(data) > w.maxEventSize && seqeq(data[:w.maxEventSize], content, ls)
 //@     requires shouldCheckMax && !w.cutOffEventByLimit ==> len(data) <= w.maxEventSize
 //@     modifies data
+//@     set gacc := ite(seq != 0, seq, gacc)
 //@   callee IncReadOps()
 //@     pure
 //@   callee IncMaxEventSizeExceeded(l)
